@@ -354,6 +354,15 @@ class SchemaGen:
 			lines += ['\tentities_count = uint16', f'\tentities = array({base}, entities_count)']
 			self.features.add('count-abstract-array')
 		self.emit(*lines)
+		# a byte-sized aligned array whose elements are CONCRETE structs of different sizes (the padding rule does not depend on the
+		# elements being read through a factory)
+		concrete = [name for name in self.var_structs] or [leaf for leaf, _ in self.leaf_structs]
+		if concrete and ((self.rng.random() < 0.5) if self.variant is None else (0 == (self.variant // 2) % 2)):
+			pack = self.fresh('Pack')
+			qualifier = self.rng.choice(['', ', pad_last', ', not pad_last'])
+			self.emit(f'struct {pack}', f'\tstamp = {self.rng.choice(INT_TYPES)}', '\tpayload_size = uint32', '\t@is_byte_constrained',
+				f'\t@alignment({self.rng.choice([4, 8])}{qualifier})', f'\titems = array({self.rng.choice(concrete)}, payload_size)', f'\ttrailer = {self.rng.choice(INT_TYPES)}')
+			self.features.add('sized-aligned-array-of-concrete-elements')
 		return container
 
 	def implicit_factory(self):
